@@ -13,7 +13,7 @@ def mutants():
     rows = ["| property | mutants caught / run | tier | missed (equivalent or out of reach, see text) |", "|---|---|---|---|"]
     for f in sorted(glob.glob(os.path.join(ROOT, "selftest", "results", "*.json"))):
         r = json.load(open(f))
-        missed = ", ".join(m["name"] for m in r["mutants"] if not m["caught"]) or "-"
+        missed = "; ".join("%s (%s)" % (m["name"], m.get("note", m["result"])[:160]) for m in r["mutants"] if not m["caught"]) or "-"
         rows.append("| %s | %d / %d | %s | %s |" % (r["property"], r["caught"], r["total"], r["tier"], missed))
     return "\n".join(rows)
 
